@@ -40,6 +40,67 @@ def graphs_of(dump):
     return out
 
 
+def pass_records(dump):
+    """per call graph: the dumps before / between / after the borrow-checking passes."""
+    out, cur = [], None
+    for r in dump:
+        ev = r["ev"]
+        if ev == "input":
+            cur = {"input": r["g"]}
+            out.append(cur)
+        elif cur is not None and ev in ("after_mc", "after_mwb"):
+            cur[ev] = r
+        elif cur is not None and ev == "checked":
+            cur["checked"] = r["g"]
+        elif cur is not None and ev == "rejected":
+            cur["rejected"] = True
+    return out
+
+
+def canon_edges(nodes_ids, edges, ren):
+    """edge list with clone nodes named after what they clone and for whom (their own index is arbitrary)."""
+    def key(i, depth=0):
+        if i in ren:
+            return ren[i]
+        if depth > 8:
+            return "?"
+        src = [s for s, d, k in edges if d == i and k == "shared"]
+        dst = [d for s, d, k in edges if s == i and k == "move"]
+        return ("clone", key(src[0], depth + 1) if src else None, key(dst[0], depth + 1) if dst else None)
+    return sorted((str(key(s)), str(key(d)), k) for s, d, k in edges)
+
+
+def passes_correspondence(accepted_and_rejected):
+    """model `multipleConsumers` / `moveWhileBorrowed` vs the graphs the real passes produced."""
+    lines, meta = [], []
+    for o in accepted_and_rejected:
+        for gi, rec in enumerate(pass_records(o["dump"])):
+            if "after_mc" not in rec:
+                continue
+            g_in, ren_in = densify(rec["input"])
+            lines.append(json.dumps({"op": "mc", "g": g_in}))
+            meta.append(("mc", o["name"], gi, rec, ren_in))
+            if "after_mwb" in rec and rec["after_mc"]["ndiag"] == 0:
+                g_mc, ren_mc = densify(rec["after_mc"]["g"])
+                lines.append(json.dumps({"op": "mwb", "g": g_mc}))
+                meta.append(("mwb", o["name"], gi, rec, ren_mc))
+    outs = [json.loads(x) for x in pxvlib.run_model("cg", lines)] if lines else []
+    dis, n_clone_graphs = [], 0
+    for (op, name, gi, rec, ren), ln, mo in zip(meta, lines, outs):
+        real = rec["after_mc"] if op == "mc" else rec["after_mwb"]
+        base = 0 if op == "mc" else rec["after_mc"]["ndiag"]
+        real_edges = canon_edges(None, real["g"]["edges"], ren)
+        ident = {i: i for i in range(len(json.loads(ln)["g"]["nodes"]))}
+        model_edges = canon_edges(None, mo["g"]["edges"], ident)
+        if any("clone" in e[0] or "clone" in e[1] for e in real_edges):
+            n_clone_graphs += 1
+        if real_edges != model_edges or (real["ndiag"] - base) != len(mo["diags"]):
+            dis.append({"pass": op, "program": name, "graph": gi, "request": json.loads(ln),
+                        "real_edges": real_edges, "model_edges": model_edges,
+                        "real_new_diagnostics": real["ndiag"] - base, "model_diagnostics": mo["diags"]})
+    return {"evaluations": len(lines), "graphs_with_clones": n_clone_graphs, "disagreements": dis}
+
+
 def densify(g):
     """Node ids in the dump are petgraph indices (may have gaps after removals): renumber 0..n-1."""
     ids = [n["i"] for n in g["nodes"]]
@@ -241,6 +302,9 @@ def run(R):
     R.coverage["rule"] = ("generated applications (free + in-class + corpus) through the real pavexc; one evaluation = one ordered call graph "
                           "(handler / middleware / app-state closure) checked by the verified ownCheck; non-trivial = graph with at least one move edge and one borrow edge")
     R.coverage["samples"] = [{"program": n, "graph": gi, "request": json.loads(l)} for (n, gi), l in list(zip(owner, lines))[:2]]
+    # L3c: the mirrored clone-insertion passes vs the graphs the real passes produced
+    pc = passes_correspondence(list(obs.values()))
+    R.coverage["passes_correspondence"] = {k: (v if k != "disagreements" else len(v)) for k, v in pc.items()}
     # L3b
     sv = spec_vs_rustc(R, 400 if R.tier == "quick" else 20000)
     R.coverage["spec_vs_rustc"] = {k: (v if k != "disagreements" else len(v)) for k, v in sv.items()}
@@ -256,14 +320,18 @@ def run(R):
     if spec_disagree:
         broken.append("correspondence `ownCheck`: the ownership model rejects a body that rustc accepts for %d program(s), first: %s" % (
             len(spec_disagree), json.dumps(spec_disagree[0])[:400]))
+    if pc["disagreements"]:
+        broken.append("correspondence `multipleConsumers`/`moveWhileBorrowed`: the mirrored pass and the real pass disagree on %d/%d graphs, first: %s" % (
+            len(pc["disagreements"]), pc["evaluations"], json.dumps(pc["disagreements"][0])[:700]))
     if sv["disagreements"]:
         broken.append("correspondence `OwnSafe vs rustc`: %d/%d random bodies judged differently, first: %s" % (
             len(sv["disagreements"]), sv["cases"], json.dumps(sv["disagreements"][0])[:500]))
     if sv["non_borrowck_errors"]:
         broken.append("spec-vs-rustc harness produced non-borrowck errors: %s" % sv["non_borrowck_errors"][:2])
-    R.coverage["model_vs_impl_disagreements"] = len(order_bad) + len(spec_disagree) + len(sv["disagreements"])
+    R.coverage["model_vs_impl_disagreements"] = len(order_bad) + len(spec_disagree) + len(sv["disagreements"]) + len(pc["disagreements"])
     if broken and n_viol == 0:
         # search mode already happened: every accepted program of this run was `cargo check`ed
         R.violation(" | ".join(broken), {"broken": broken, "theorem_module": "Pxv.Thm.C01",
                                           "order_bad": order_bad[:2], "spec_disagree": spec_disagree[:2],
-                                          "rustc_disagreements": sv["disagreements"][:3]}, no_failing_input=True)
+                                          "rustc_disagreements": sv["disagreements"][:3],
+                                          "pass_disagreements": pc["disagreements"][:2]}, no_failing_input=True)
